@@ -430,8 +430,10 @@ async def run_worker_case(loop: vclock.VLoop, case: dict, *, settled: Callable[[
         if p.done() and not p.cancelled() and p.exception() is not None:
             trace.errors.append(f"producer failed: {p.exception()!r}")
     await vclock.quiesce(loop)
-    if case.get("settle_after", 0.0) > 0:
-        await asyncio.sleep(case["settle_after"])
+    # "once the worker has returned and the loop is idle": let short broker-internal timers (e.g. the AMQP
+    # consumer's 0.1 s delayed reject of a message that arrived while paused) run out
+    if case.get("settle_after", 0.5) > 0:
+        await asyncio.sleep(case.get("settle_after", 0.5))
     trace.final = env.probe()
     trace.final_t = loop.time()
     for id_, job in trace.job_objs.items():
